@@ -84,10 +84,33 @@ impl SlotMapData {
         ensures match r { Some(a) => slot < self.slot_arr@.len() && (self.slot_arr@[slot as int] matches Some(k) && a@ == self.addrs@[k as int]@), None => slot >= self.slot_arr@.len() || self.slot_arr@[slot as int] is None }
     { unimplemented!() }
 }
+''')
+    # ---- which command element is the key that gets hashed (CommandInfo::get_key, src/proxy/command.rs)
+    CM = U.src('src/proxy/command.rs')
+    dct = re.sub(r'\n\s*//[^\n]*', '', broker_common.strip(CM.item('enum', 'DataCmdType')))
+    U.add('#[derive(PartialEq, Eq, Clone, Copy, Structural)]\n' + dct + '\n')
+    U.add('''#[verifier::external_body] pub struct RespPacket { x: u8 }
+impl RespPacket {
+    // element i of the command array (None if there is none / it is no bulk string); proved on Resp<Vec<u8>> in unit resp_utils
+    pub uninterp spec fn elem(&self, i: int) -> Option<Seq<u8>>;
+    #[verifier::external_body] pub fn get_array_element(&self, index: usize) -> (r: Option<&[u8]>)
+        ensures match r { Some(s) => self.elem(index as int) == Some(s@), None => self.elem(index as int) is None } { unimplemented!() }
+}
+// Redis syntax: EVAL script numkeys key [key ...] / EVALSHA sha1 numkeys key [key ...]: the first key is argument 3; every other
+// supported data command has its (first) key at argument 1
+pub open spec fn key_index(ty: DataCmdType) -> int { if ty == DataCmdType::Eval || ty == DataCmdType::Evalsha { 3 } else { 1 } }
+pub struct CommandInfo;
+impl CommandInfo {
+''')
+    k = CM.fn('get_key', within=r'impl CommandInfo\b')
+    k.header('''    fn get_key(data_cmd_type: DataCmdType, packet: &RespPacket) -> (r: Option<&[u8]>)
+        ensures match r { Some(s) => packet.elem(key_index(data_cmd_type)) == Some(s@), None => packet.elem(key_index(data_cmd_type)) is None }''')
+    U.add_fn(k)
+    U.add('''}
 } // verus!
 fn main() {}
 ''')
-    U.trust('SlotMapData::new / get through their contracts proved in unit c09', 'D9b: HashMap::into_iter yields every entry once with distinct keys (shim_into_entries)',
+    U.trust('RespPacket opaque: get_array_element(i) is element i of the command array (contract proved for common::utils::get_command_element in unit resp_utils; the delegation is read)','SlotMapData::new / get through their contracts proved in unit c09', 'D9b: HashMap::into_iter yields every entry once with distinct keys (shim_into_entries)',
             'R-iter: `for x in slice` == `for x in slice.iter()`', 'derived Hash/Eq of String obey the key model (precondition)')
 
 MUST_FAIL = '''
